@@ -38,6 +38,17 @@ Theorem C14_selector_slice_spec : forall t n fields start stop, 0 <= n -> WellFo
   selector_slice t n fields start stop = Some (zrange lo (Z.to_nat (hi - lo)), map (fun f => (f, slice (colof t f) lo hi)) fields).
 Proof. exact selector_slice_spec. Qed.
 Print Assumptions C14_selector_slice_spec.
+(** ... and for every bound up to the length, however negative: [array_bound a n] is how an array resolves the bound
+    (add n to a negative one, then clamp to [0, n]).  Bounds below -n used to give rows with negative labels (D33). *)
+Theorem C14_selector_slice_array_semantics : forall t n fields start stop, 0 <= n -> WellFormed t n ->
+  (forall a, start = Some a -> a <= n) -> (forall b, stop = Some b -> b <= n) ->
+  (forall f, In f fields -> lookup_col t f <> None) -> fields <> [] ->
+  let lo := match start with None => 0 | Some a => array_bound a n end in
+  let hi := match stop with None => n | Some b => array_bound b n end in
+  lo <= hi ->
+  selector_slice t n fields start stop = Some (zrange lo (Z.to_nat (hi - lo)), map (fun f => (f, slice (colof t f) lo hi)) fields).
+Proof. exact selector_slice_array_semantics. Qed.
+Print Assumptions C14_selector_slice_array_semantics.
 
 (** annotate: for every pixel list (any order, repeats, any length relative to the bin count: both strategies of
     the code) and every contiguous view of the bin table that contains the needed bins, row k carries the fields of
